@@ -61,6 +61,9 @@ def run(run):
     from concepts import Definition, Context
     for tab in gen.suite(rng, run.tier, exh_quick=6, rand_quick=140, wide_quick=6, exh_thorough=9, rand_thorough=1500, nmax=7, mmax=7):
         n, m, rows = tab
+        if not run.time_left():
+            run.notes.append('stopped at the deadline')
+            break
         if min(n, m) > 8:
             continue
         objs = ['o%d' % ((i * 37 + 11) % 1009) for i in range(n)]
